@@ -18,6 +18,14 @@ CHECKS = {
         design="4/C17", technique="Coq proof of automaton = pattern semantics (Aho-Corasick invariant) + differential correspondence of the extracted model with lou_hyphenate"),
 }
 
+CHECKS["C19"] = dict(
+    text="Machine-checked proof (Coq) over the guard regenerated from logging.c on every run: a message is delivered iff its level "
+         "is at or above the threshold, raising the threshold yields exactly the filtered sub-sequence (text, level, sink, order "
+         "preserved) for every operation sequence, defaults, OFF, NULL restores the default sink, and every format argument in "
+         "the sources is a string literal; tied to the code by callback captures versus the extracted state machine and versus "
+         "the filtered ALL-level capture under all seven thresholds.",
+    design="4/C19", technique="Coq proof over a guard regenerated from the C source + differential correspondence with the log callback")
+
 PENDING = {}
 
 
